@@ -767,97 +767,47 @@ func extWirePairs(m *MClaims, ts *int64) map[int64]*icbor.Node {
 }
 
 func TestC15_Extensions(t *testing.T) {
-	st := NewStats("C15", "TestC15_Extensions", "rapid: an extension profile on each base profile (struct embedding P1Claims / P2Claims plus one extra optional claim, codec methods routed through the embedding-aware helpers, as documented in example_extensions_test.go) x valid claims-sets x timestamp present/absent: the CBOR is one definite map equal (as a key->value map, read independently) to the base profile's wire map plus the extra key; decoding it into a fresh extension instance reproduces every getter, the timestamp, and byte-identical CBOR and JSON; JSON round trip likewise; through the dispatching decoders when the profile is registered. Non-trivial = every case (embedded level present); distinct = class vector + timestamp class")
-	st.Require = []string{"ext-on-P1", "ext-on-P2", "ts-absent", "ts-present"}
+	st := NewStats("C15", "TestC15_Extensions", "rapid: six styles of extension profile (extstyles_test.go: struct embedding P1Claims / P2Claims plus one extra optional claim with codec methods routed through the embedding-aware helpers, as documented in example_extensions_test.go; derived profiles inheriting every method, one without profile claim, one named by an OID; an extra claim whose Go field name shadows a field of the embedded claims; an extension of an extension) x valid claims-sets x own claims present/absent: the CBOR is one definite map equal (as a key->value map, read independently) to the base profile's wire map plus the profile claim and the extra keys; decoding it (through the dispatcher where the style can be dispatched, and into a fresh instance) reproduces every getter, the own claims, and byte-identical CBOR; JSON round trip likewise. Non-trivial = every case (embedded level present); distinct = style + class vector + own-claim classes")
+	st.Require = []string{"ext-on-P1", "ext-on-P2", "ts-absent", "ts-present", "style=ext-p2", "style=ext-p1", "style=inherit-p1", "style=inherit-p2-oid", "style=shadow-p2", "style=nested-p2"}
 	defer st.Flush(t)
-	withExtProfiles(func() {
+	withExtStyles(func() {
 		rapid.Check(t, func(t *rapid.T) {
-			p := drawProf(t)
+			s := extStyles[rapid.IntRange(0, len(extStyles)-1).Draw(t, "style")]
+			p := s.Base
 			m := GenValid(t, p, true)
 			if p == P1 {
 				m.Profile = sp(P1Name) // BuildSetters route keeps the explicit profile
 			}
-			ts := drawOptInt(t, "timestamp")
-			if ts != nil && *ts < 0 {
-				*ts = -*ts
+			var own []*int64
+			present := false
+			for i := range s.OwnKeys {
+				ts := drawOptInt(t, fmt.Sprintf("own%d", i))
+				if ts != nil && *ts < 0 {
+					*ts = -*ts
+				}
+				if extRuleBroken(ts) {
+					*ts = 14 // keep clear of the values the extension's own rule rejects
+				}
+				present = present || ts != nil
+				own = append(own, ts)
 			}
-			if extRuleBroken(ts) {
-				*ts = 14 // keep clear of the values the extension's own rule rejects
-			}
-			c, err := buildExt(m, ts)
+			c, err := s.build(m, own...)
 			if err != nil {
 				t.Fatalf("cannot build extension claims: %v", err)
 			}
-			if err := c.Validate(); err != nil {
-				t.Fatalf("C15: extension claims built from a valid base set do not validate: %v [%s]", err, m.ClassVector())
+			if msg := s.roundTrips(c, m, "both", own...); msg != "" {
+				t.Fatalf("C15 violated: %s\n  [%s]", msg, m.ClassVector())
 			}
-			out, err := psatoken.EncodeClaimsToCBOR(c)
-			if err != nil {
-				t.Fatalf("C15 violated: extension claims do not encode: %v", err)
-			}
-			n, fl, err := icbor.Read(out)
-			if err != nil || n.Kind != icbor.KMap || fl.HasIndef || fl.HasDupKeys {
-				t.Fatalf("C15 violated: extension CBOR is not one definite map without duplicates (%v): %x", err, out)
-			}
-			want := extWirePairs(m, ts)
-			if len(n.Pairs) != len(want) {
-				t.Fatalf("C15 violated: extension CBOR has %d entries, expected %d: %s", len(n.Pairs), len(want), truncate(icbor.Diag(n), 400))
-			}
-			for _, pr := range n.Pairs {
-				k, _ := pr[0].Int()
-				if w, ok := want[k]; !ok || !icbor.Equal(w, pr[1]) {
-					t.Fatalf("C15 violated: extension CBOR key %d carries %s, expected %v", k, truncate(icbor.Diag(pr[1]), 100), w != nil)
-				}
-			}
-			// decode into a fresh instance
-			name := ExtP2Name
-			if p == P1 {
-				name = ExtP1Name
-			}
-			d, err := psatoken.NewClaims(name)
-			if err != nil {
-				t.Fatalf("VERIF-INFRA: %v", err)
-			}
-			if err := hdm.Unmarshal(out, d); err != nil {
-				t.Fatalf("C15 violated: extension CBOR does not decode into a fresh instance: %v (%x)", err, out)
-			}
-			if p == P2 { // the CBOR dispatcher only looks at key 265
-				d2, err := psatoken.DecodeClaimsFromCBOR(out)
-				if err != nil || fmt.Sprintf("%T", d2) != fmt.Sprintf("%T", c) {
-					t.Fatalf("C15 violated: dispatching decoder on extension CBOR: %T, %v", d2, err)
-				}
-			}
-			o0, o1 := Observe(c), Observe(d)
-			if diff := o0.Diff(o1); diff != "" {
-				t.Fatalf("C15 violated: extension CBOR round trip changes the claims: %s", diff)
-			}
-			if !reflect.DeepEqual(extTimestamp(c), extTimestamp(d)) {
-				t.Fatalf("C15 violated: extension claim lost in CBOR round trip")
-			}
-			// JSON
-			js, err := psatoken.EncodeClaimsToJSON(c)
-			if err != nil {
-				t.Fatalf("C15 violated: extension claims do not encode to JSON: %v", err)
-			}
-			dj, err := psatoken.DecodeClaimsFromJSON(js)
-			if err != nil {
-				t.Fatalf("C15 violated: extension JSON does not decode through the dispatcher: %v (%s)", err, js)
-			}
-			if diff := o0.Diff(Observe(dj)); diff != "" {
-				t.Fatalf("C15 violated: extension JSON round trip changes the claims: %s", diff)
-			}
-			if !reflect.DeepEqual(extTimestamp(c), extTimestamp(dj)) {
-				t.Fatalf("C15 violated: extension claim lost in JSON round trip")
-			}
-			cls := []string{"ext-on-" + p.String()}
-			if ts == nil {
+			cls := []string{"ext-on-" + p.String(), "style=" + s.Label}
+			if !present {
 				cls = append(cls, "ts-absent")
 			} else {
 				cls = append(cls, "ts-present")
 			}
-			st.Case(fmt.Sprintf("%s|%v", m.ClassVector(), ts != nil), cls...)
+			st.Case(fmt.Sprintf("%s|%s|%v", s.Label, m.ClassVector(), len(own)), cls...)
 			if st.WantSample() {
-				st.Sample(map[string]string{"ext": cls[0], "claims": m.ClassVector(), "cbor": truncate(hexs(out), 160)})
+				out, _ := psatoken.EncodeClaimsToCBOR(c)
+				st.Sample(map[string]string{"style": s.Label, "claims": m.ClassVector(), "cbor": truncate(hexs(out), 160)})
 			}
 		})
 	})
